@@ -1,12 +1,31 @@
-# Semantics of the PTX inline-asm subset used by gl64_t.cuh: add/sub/addc/subc(.cc), mul.lo/hi, mad/madc.lo/hi(.cc), setp, selp, predicated mov/add/setp,
-# mov.b64 {lo,hi}.  The carry flag CC and the predicate registers persist across consecutive asm statements (the header declares %top in one asm
-# statement and uses it in the following ones).
+# Semantics of the PTX inline-asm subset met in gl64_t.cuh and in restructured variants of it:
+#   add/addc/sub/subc(.cc), mul.lo/hi/wide, mad/madc.lo/hi/wide(.cc), setp.<cmp>, selp, and/or/xor/not (bits and predicates), shl/shr, cvt, mov incl.
+#   the {lo,hi} pack/unpack forms, guarded execution "@p" / "@!p" of any of these (a guarded flag-setting instruction updates CC conditionally),
+#   named registers declared with ".reg".  The carry flag CC, the predicate registers and the named registers persist across consecutive asm
+#   statements (the header declares %top in one asm statement and uses it in the following ones).
 import z3, re
 from .interp import is_c, tobv, mask, Unsupported, POISON
 
+def _sel(c, a, b, wd):
+    if isinstance(c, bool): return a if c else b
+    if is_c(a) and is_c(b) and a == b: return a
+    return z3.If(c, tobv(a, wd), tobv(b, wd))
+def _not(c): return (not c) if isinstance(c, bool) else z3.Not(c)
+def _and(a, b):
+    if isinstance(a, bool): return b if a else False
+    if isinstance(b, bool): return a if b else False
+    return z3.And(a, b)
+def _or(a, b):
+    if isinstance(a, bool): return True if a else b
+    if isinstance(b, bool): return True if b else a
+    return z3.Or(a, b)
+def _xor(a, b):
+    if isinstance(a, bool) and isinstance(b, bool): return a != b
+    return z3.Xor(a if not isinstance(a, bool) else z3.BoolVal(a), b if not isinstance(b, bool) else z3.BoolVal(b))
+
 class PTX:
     def __init__(s): s.reset()
-    def reset(s): s.pred = {}; s.cc = 0
+    def reset(s): s.pred = {}; s.cc = 0; s.regs = {}; s.rw = {}
     def run(s, it, ins, args):
         text = ins.asm[1:-1].replace('%%', '%').replace('\\0A', '\n').replace('\\09', ' ')
         cons = ins.constraints[1:-1].split(',') if len(ins.constraints) > 2 else []
@@ -22,25 +41,57 @@ class PTX:
             if v is POISON: raise Unsupported('PTX asm on undef operand')
             if c.isdigit(): ops[int(c)] = v
             else: ops[i] = v; widths[i] = 64 if c == 'l' else 32
+        def isreg(tok): return tok.startswith('%') and not tok[1:2].isdigit()
         def rd(tok, wd):
             tok = tok.strip()
             if tok.startswith('$'):
                 v = ops[int(tok[1:])]
                 if v is None: raise Unsupported('PTX read of unset output operand')
                 return v
+            if isreg(tok):
+                nm = tok[1:]
+                if nm not in s.regs or s.regs[nm] is None: raise Unsupported('PTX register %s read before it is written' % tok)
+                return s.regs[nm]
             return int(tok, 0) & mask(wd)
         def wr(tok, v, guard=None, wd=32):
-            i = int(tok.strip()[1:])
+            tok = tok.strip()
+            if isreg(tok):
+                nm = tok[1:]
+                if nm not in s.rw: raise Unsupported('PTX register %s not declared' % tok)
+                w_ = s.rw[nm]
+                if guard is not None:
+                    old = s.regs.get(nm)
+                    if isinstance(guard, bool):
+                        if not guard: return
+                    elif old is None: raise Unsupported('predicated write to an unset register')
+                    else: v = _sel(guard, v, old, w_)
+                s.regs[nm] = v if is_c(v) else (tobv(v, w_) if not (z3.is_expr(v) and z3.is_bv(v) and v.size() == w_) else v)
+                if is_c(s.regs[nm]): s.regs[nm] &= mask(w_)
+                return
+            i = int(tok[1:])
             if i >= nout: raise Unsupported('PTX asm writes an input operand')
             if guard is not None:
                 old = ops[i]
-                if old is None: raise Unsupported('predicated write to an unset operand')
                 if isinstance(guard, bool):
                     if not guard: return
-                else: v = z3.If(guard, tobv(v, widths[i]), tobv(old, widths[i]))
+                elif old is None: raise Unsupported('predicated write to an unset operand')
+                else: v = _sel(guard, v, old, widths[i])
             ops[i] = v
+        def getp(tok):
+            nm = tok.strip().lstrip('%')
+            if nm not in s.pred: raise Unsupported('PTX predicate %s used before set' % nm)
+            return s.pred[nm]
+        def setp(tok, c, guard=None):
+            nm = tok.strip().lstrip('%')
+            if guard is None: s.pred[nm] = c
+            elif isinstance(guard, bool):
+                if guard: s.pred[nm] = c
+            else: s.pred[nm] = _sel3(guard, c, s.pred.get(nm, False))
+        def _sel3(g, a, b):
+            a = a if not isinstance(a, bool) else z3.BoolVal(a); b = b if not isinstance(b, bool) else z3.BoolVal(b); return z3.If(g, a, b)
         def cw(c, wd):
             if is_c(c): return c
+            if isinstance(c, bool): return int(c)
             if z3.is_bool(c): return z3.If(c, z3.BitVecVal(1, wd), z3.BitVecVal(0, wd))
             return z3.ZeroExt(wd - c.size(), c) if c.size() < wd else c
         def addw(a, b, c, wd):
@@ -57,68 +108,117 @@ class PTX:
             if is_c(c) and c == 0: return d1, b1
             C = tobv(c, wd); d2 = d1 - C; b2 = z3.ULT(d1, C)
             return d2, z3.Or(b1, b2)
-        def mul32(a, b):
+        def mulfull(a, b, wd):
             if is_c(a) and is_c(b): return a * b
-            return z3.ZeroExt(32, tobv(a, 32)) * z3.ZeroExt(32, tobv(b, 32))
-        def lo(x): return x & mask(32) if is_c(x) else z3.Extract(31, 0, x)
-        def hi(x): return x >> 32 if is_c(x) else z3.Extract(63, 32, x)
-        for st in [x.strip() for x in re.split(r';', text) if x.strip()]:
-            if st.startswith('{'):
-                st = st[1:].strip()
-                if not st: continue
-            if st == '}': continue
+            return z3.ZeroExt(wd, tobv(a, wd)) * z3.ZeroExt(wd, tobv(b, wd))
+        def lo(x, wd): return x & mask(wd) if is_c(x) else z3.Extract(wd - 1, 0, x)
+        def hi(x, wd): return x >> wd if is_c(x) else z3.Extract(2 * wd - 1, wd, x)
+        def setcc(c, guard):
+            if guard is None: s.cc = c
+            elif isinstance(guard, bool):
+                if guard: s.cc = c
+            else:
+                def cb(x):
+                    if isinstance(x, bool) or is_c(x): return z3.BoolVal(bool(x))
+                    return x if z3.is_bool(x) else (x != 0)
+                s.cc = z3.If(guard, cb(c), cb(s.cc))
+        def cmpv(cmp_, a, b, wd, signed):
+            if is_c(a) and is_c(b):
+                if signed:
+                    a = a - (1 << wd) if a >> (wd - 1) else a; b = b - (1 << wd) if b >> (wd - 1) else b
+                return {'eq': a == b, 'ne': a != b, 'lt': a < b, 'le': a <= b, 'gt': a > b, 'ge': a >= b, 'lo': a < b, 'ls': a <= b, 'hi': a > b, 'hs': a >= b}[cmp_]
+            A = tobv(a, wd); B = tobv(b, wd)
+            if cmp_ in ('eq', 'ne'): r = (A == B) if cmp_ == 'eq' else (A != B)
+            elif signed: r = {'lt': A < B, 'le': A <= B, 'gt': A > B, 'ge': A >= B}[cmp_]
+            else: r = {'lt': z3.ULT(A, B), 'le': z3.ULE(A, B), 'gt': z3.UGT(A, B), 'ge': z3.UGE(A, B), 'lo': z3.ULT(A, B), 'ls': z3.ULE(A, B), 'hi': z3.UGT(A, B), 'hs': z3.UGE(A, B)}[cmp_]
+            return z3.simplify(r)
+        def bitop(op, a, b, wd):
+            if is_c(a) and is_c(b): return {'and': a & b, 'or': a | b, 'xor': a ^ b}[op]
+            A = tobv(a, wd); B = tobv(b, wd); return {'and': A & B, 'or': A | B, 'xor': A ^ B}[op]
+        stmts = [x.strip() for x in re.split(r';', text) if x.strip()]
+        for st in stmts:
+            while st.startswith('{'): st = st[1:].strip()
+            while st.endswith('}') and '{' not in st: st = st[:-1].strip()
+            if not st: continue
             if st.startswith('.reg'):
-                for nm in re.findall(r'%(\w+)', st): s.pred.pop(nm, None)
+                m_ = re.match(r'\.reg\s*\.(\w+)\s+(.*)$', st)
+                if not m_: raise Unsupported('PTX declaration ' + st)
+                ty = m_.group(1)
+                for nm in re.findall(r'%(\w+)', m_.group(2)):
+                    if ty == 'pred': s.pred.pop(nm, None)
+                    else: s.rw[nm] = 64 if ty.endswith('64') else (16 if ty.endswith('16') else 32); s.regs[nm] = None
                 continue
             guard = None
             if st.startswith('@'):
-                g, st = st.split(None, 1); neg = g.startswith('@!'); nm = g.lstrip('@!').lstrip('%')
-                if nm not in s.pred: raise Unsupported('PTX predicate %s used before set' % nm)
-                g0 = s.pred[nm]
-                guard = (not g0) if (neg and isinstance(g0, bool)) else (z3.Not(g0) if neg else g0)
+                g, st = st.split(None, 1); neg = g.startswith('@!'); g0 = getp(g.lstrip('@!'))
+                guard = _not(g0) if neg else g0
             mn, rest = (st.split(None, 1) + [''])[:2]; o = [x.strip() for x in re.split(r',(?![^{]*\})', rest)] if rest else []
             parts = mn.split('.'); base = parts[0]
-            wd = 64 if parts[-1] in ('u64', 'b64', 's64') else 32
-            setcc = 'cc' in parts
+            tyname = parts[-1]
+            wd = 64 if tyname in ('u64', 'b64', 's64') else (16 if tyname in ('u16', 'b16', 's16') else 32)
+            signed = tyname.startswith('s')
+            docc = 'cc' in parts
             if base in ('add', 'addc'):
-                if guard is not None and (setcc or base == 'addc'): raise Unsupported('predicated carry arithmetic')
                 r, c = addw(rd(o[1], wd), rd(o[2], wd), s.cc if base == 'addc' else 0, wd); wr(o[0], r, guard, wd)
-                if setcc: s.cc = c
+                if docc: setcc(c, guard)
             elif base in ('sub', 'subc'):
-                if guard is not None and (setcc or base == 'subc'): raise Unsupported('predicated borrow arithmetic')
                 r, c = subw(rd(o[1], wd), rd(o[2], wd), s.cc if base == 'subc' else 0, wd); wr(o[0], r, guard, wd)
-                if setcc: s.cc = c
+                if docc: setcc(c, guard)
             elif base == 'mul':
-                if guard is not None: raise Unsupported('predicated mul')
-                pr = mul32(rd(o[1], 32), rd(o[2], 32)); wr(o[0], lo(pr) if 'lo' in parts else hi(pr))
-            elif base in ('mad', 'madc'):
-                if guard is not None: raise Unsupported('predicated mad')
-                pr = mul32(rd(o[1], 32), rd(o[2], 32)); part = lo(pr) if 'lo' in parts else hi(pr)
-                r, c = addw(part, rd(o[3], 32), s.cc if base == 'madc' else 0, 32); wr(o[0], r)
-                if setcc: s.cc = c
-            elif base == 'setp':
-                a = rd(o[1], 32); b = rd(o[2], 32); cmp_ = parts[1]
-                if cmp_ not in ('eq', 'ne'): raise Unsupported('setp.' + cmp_)
-                if is_c(a) and is_c(b): c = (a == b) if cmp_ == 'eq' else (a != b)
-                else: c = z3.simplify((tobv(a, 32) == tobv(b, 32)) if cmp_ == 'eq' else (tobv(a, 32) != tobv(b, 32)))
-                pn = o[0].lstrip('%')
-                # PTX: a predicated setp leaves the destination unchanged when the guard is false
-                if guard is None: s.pred[pn] = c
-                elif isinstance(guard, bool): s.pred[pn] = c if guard else s.pred.get(pn, False)
+                if 'wide' in parts:
+                    sw = 32 if tyname in ('u32', 's32') else 16
+                    if signed: raise Unsupported('signed mul.wide')
+                    pr = mulfull(rd(o[1], sw), rd(o[2], sw), sw); wr(o[0], pr, guard, 2 * sw)
                 else:
-                    old = s.pred.get(pn, False)
-                    s.pred[pn] = z3.If(guard, c if not isinstance(c, bool) else z3.BoolVal(c), old if not isinstance(old, bool) else z3.BoolVal(old))
+                    pr = mulfull(rd(o[1], wd), rd(o[2], wd), wd); wr(o[0], lo(pr, wd) if 'lo' in parts else hi(pr, wd), guard, wd)
+            elif base in ('mad', 'madc'):
+                if 'wide' in parts:
+                    sw = 32
+                    pr = mulfull(rd(o[1], sw), rd(o[2], sw), sw); r, c = addw(pr, rd(o[3], 64), s.cc if base == 'madc' else 0, 64); wr(o[0], r, guard, 64)
+                else:
+                    pr = mulfull(rd(o[1], wd), rd(o[2], wd), wd); part = lo(pr, wd) if 'lo' in parts else hi(pr, wd)
+                    r, c = addw(part, rd(o[3], wd), s.cc if base == 'madc' else 0, wd); wr(o[0], r, guard, wd)
+                if docc: setcc(c, guard)
+            elif base == 'setp':
+                cmp_ = parts[1]
+                if cmp_ not in ('eq', 'ne', 'lt', 'le', 'gt', 'ge', 'lo', 'ls', 'hi', 'hs'): raise Unsupported('setp.' + cmp_)
+                c = cmpv(cmp_, rd(o[1], wd), rd(o[2], wd), wd, signed)
+                if len(parts) > 3 and parts[2] in ('and', 'or', 'xor'):       # setp.cmp.boolop.type p, a, b, q
+                    q = getp(o[3]); c = {'and': _and, 'or': _or, 'xor': _xor}[parts[2]](c, q)
+                setp(o[0], c, guard)
             elif base == 'selp':
-                pn = o[3].lstrip('%')
-                if pn not in s.pred: raise Unsupported('selp predicate unset')
-                a = rd(o[1], wd); b = rd(o[2], wd); pv = s.pred[pn]
-                wr(o[0], (a if pv else b) if isinstance(pv, bool) else z3.If(pv, tobv(a, wd), tobv(b, wd)), guard, wd)
+                pv = getp(o[3]); a = rd(o[1], wd); b = rd(o[2], wd)
+                wr(o[0], _sel(pv, a, b, wd), guard, wd)
+            elif base in ('and', 'or', 'xor') and tyname == 'pred':
+                setp(o[0], {'and': _and, 'or': _or, 'xor': _xor}[base](getp(o[1]), getp(o[2])), guard)
+            elif base == 'not' and tyname == 'pred': setp(o[0], _not(getp(o[1])), guard)
+            elif base in ('and', 'or', 'xor'): wr(o[0], bitop(base, rd(o[1], wd), rd(o[2], wd), wd), guard, wd)
+            elif base == 'not':
+                a = rd(o[1], wd); wr(o[0], (~a) & mask(wd) if is_c(a) else ~tobv(a, wd), guard, wd)
+            elif base in ('shl', 'shr'):
+                a = rd(o[1], wd); n_ = rd(o[2], 32)
+                if not is_c(n_): raise Unsupported('PTX shift by a register amount')
+                if n_ >= wd: r = 0
+                elif base == 'shl': r = (a << n_) & mask(wd) if is_c(a) else tobv(a, wd) << n_
+                elif signed: raise Unsupported('PTX arithmetic shift')
+                else: r = a >> n_ if is_c(a) else z3.LShR(tobv(a, wd), n_)
+                wr(o[0], r, guard, wd)
+            elif base == 'cvt':
+                dw = 64 if parts[-2] in ('u64', 's64', 'b64') else 32; sw = wd; a = rd(o[1], sw)
+                if parts[-1].startswith('s'): raise Unsupported('PTX signed cvt')
+                if dw > sw: r = a if is_c(a) else z3.ZeroExt(dw - sw, tobv(a, sw))
+                elif dw < sw: r = a & mask(dw) if is_c(a) else z3.Extract(dw - 1, 0, tobv(a, sw))
+                else: r = a
+                wr(o[0], r, guard, dw)
             elif base == 'mov':
                 if o[1].startswith('{'):
-                    l, h = [x.strip() for x in o[1].strip('{}').split(',')]; lv = rd(l, 32); hv = rd(h, 32)
-                    v = (lv | (hv << 32)) if (is_c(lv) and is_c(hv)) else z3.Concat(tobv(hv, 32), tobv(lv, 32))
-                else: v = rd(o[1], wd)
-                wr(o[0], v, guard, wd)
+                    l, h = [x.strip() for x in o[1].strip('{}').split(',')]; lv = rd(l, wd // 2); hv = rd(h, wd // 2)
+                    v = (lv | (hv << (wd // 2))) if (is_c(lv) and is_c(hv)) else z3.Concat(tobv(hv, wd // 2), tobv(lv, wd // 2))
+                    wr(o[0], v, guard, wd)
+                elif o[0].startswith('{'):
+                    l, h = [x.strip() for x in o[0].strip('{}').split(',')]; v = rd(o[1], wd)
+                    wr(l, lo(v, wd // 2) if not is_c(v) else v & mask(wd // 2), guard, wd // 2); wr(h, (v >> (wd // 2)) if is_c(v) else z3.Extract(wd - 1, wd // 2, tobv(v, wd)), guard, wd // 2)
+                else: wr(o[0], rd(o[1], wd), guard, wd)
             elif base == 'trap': raise Unsupported('PTX trap reached')
             else: raise Unsupported('PTX mnemonic ' + mn)
         outs = [ops[i] for i in range(nout)]
